@@ -137,7 +137,9 @@ Definition add_values (st : list (nat * hslice) * nat) (kv : nat * list rval) : 
 
 Definition attempt (c : cl) (r : rq) : rq :=
   let m := q_merged r in
-  let '(hs, rec, nx) := fold_left merge_header (c_headers c) (q_headers r, m_headers m, q_next r) in
+  (* parseRequestHeader: once per execution (RetryAttempt > 0 returns early) *)
+  let '(hs, rec, nx) := if q_attempt r =? 0 then fold_left merge_header (c_headers c) (q_headers r, m_headers m, q_next r)
+                        else (q_headers r, m_headers m, q_next r) in
   let ck := match c_cookies c with [] => false | _ => q_attempt r =? 0 end in
   let fm := match c_form c with [] => false | _ => negb (q_form_merged r) end in
   let '(f', nx') := if fm then fold_left add_values (c_form c) (q_form r, nx) else (q_form r, nx) in
